@@ -27,7 +27,7 @@ CHECKS = {
 
  "C12": ("CODEC", "round-trip + differential against independent RFC 2131/3396 and Ethernet/IPv4/UDP decoders over generated messages and frames; exhaustive sweep of the 65536 flag values", "exploration",
          "Generated DHCP messages survive parse/serialise/parse and read identically through an independent RFC decoder; generated frames verify (lengths, both checksums, payload); broadcast(f) <=> bit 15 for all 65536 flag values (exhaustive sub-claim).",
-         "Trusted: the harness's RFC 2131/3396 codec and frame decoder (written from the RFCs). The on-the-wire destination choice (broadcast iff bit 15, else yiaddr; Ethernet destination = chaddr) is decided by the wire tier of the same command on frames captured from the real erbium-dhcp (sampled flag values).", "3/C12"),
+         "Trusted: the harness's RFC 2131/3396 codec and frame decoder (written from the RFCs). The on-the-wire destination choice (broadcast iff bit 15, else yiaddr; Ethernet destination = chaddr) is decided by the wire tier of the same command on frames captured from the real erbium-dhcp (sampled flag values), which also drives replies of 300 octets up to beyond the link MTU (long search lists and portal URLs) and judges every frame that appears in full.", "3/C12"),
  "C14": ("CODEC", "round-trip property testing over generated structured DNS messages and mutated encodings, differential against an independent RFC 1035/6891 decoder with pointer audit", "exploration",
          "Every generated message (to 2000 records / 65535 octets, shared suffixes at every depth, all rdata kinds, EDNS options) re-decodes to itself with the crate parser and field-by-field (RFC bit positions) with an independent decoder; every compression pointer targets an earlier offset below 0x4000; accepted byte inputs re-encode to an equal message.",
          "Trusted: the harness's RFC 1035 decoder/encoder. Byte inputs include several OPT records in any section, records of name-bearing types with RDLENGTH 0, names assembled through pointer chains past 255 octets, and the committed corpus (every past failure). Where the harness decoder and erbium's model of a message disagree on what the input is (several OPT records, questions != 1) only the crate-level round trip is judged (counted). The thorough tier adds a libFuzzer campaign with the same oracle inside the target.", "3/C14"),
@@ -36,13 +36,13 @@ CHECKS = {
          "Function tier decides the serialiser; the per-transport choice (UDP vs TCP) is glue inside the service loops and is decided by the wire tier (same command; needs the private network namespace).", "3/C04"),
  "C05": ("CODEC+FUZZ", "complete enumeration of a structure-aware boundary/truncation family + generated mutations + corpus through every decoder and the handler steps that follow it; crash/overflow/hang oracle with write-ahead replay", "exploration",
          "No input of the enumerated single-position family over the seed packets, of the nested-length families, of the committed corpus or of the generated multi-edit mutations made any decoder or subsequent handler step panic, overflow or exceed 30 s CPU (build has overflow checks and debug assertions on).",
-         "Handler steps replicated with public API calls in the order the service uses them; private glue of the DNS service loops is reached by the wire tier of the same command (hostile datagrams, TCP frames and upstream replies to the real erbium-dns, then a liveness probe). Frames below 14 octets are not deliverable to LLDP.", "3/C05"),
+         "Handler steps replicated with public API calls in the order the service uses them; private glue of the DNS service loops is reached by the wire tier of the same command (hostile datagrams, TCP frames and upstream replies to the real erbium-dns, then a liveness probe), and of the DHCP service by hostile frames to the real erbium-dhcp, including the complete family of text/list options split over several instances (RFC 3396) with multi-octet fills. Frames below 14 octets are not deliverable to LLDP.", "3/C05"),
  "C06": ("CODEC(hook)", "model-based property testing of the cache through its own entry points under a paused clock against a reference cache model", "exploration",
          "Generated query/advance/sweep sequences with near-miss keys and boundary-placed clocks: a hit only for the identical key within the smallest TTL, TTLs equal original minus whole elapsed seconds, never negative; cached content equals what was stored.",
          "H3 drives calculate_expiry/insert/get_entry/expire in handle_query order; the class bypass and header-bit extraction of the key live in handle_query/parser and are decided by the wire tier of the same command (near-miss keys and timed re-queries against the real erbium-dns).", "3/C06"),
  "C16": ("CODEC(hook)", "property testing of the token bucket on a harness clock with black-box inferred constants; window-bound invariant + idle liveness", "exploration",
          "With burst and rate inferred black-box, every window of every generated arrival sequence stays within B + R*span and an idle bucket grants any request up to B.",
-         "The bucket is decided exactly; the two-bucket limiter, reply pricing and cookie exemption are private glue decided by the wire tier of the same command (a 35 s steady flood, quiet sources, bursts spread over source ports, a second burst, a cookie matrix of twelve variants incl. guessable keys and truncated server parts, all 256 one-octet server parts) against the documented constants (two buckets of 1000 tokens, 2 tokens/s, at least 200 per REFUSED). Key rotation (24-36 h) is not covered.", "3/C16"),
+         "The bucket is decided exactly; the two-bucket limiter, reply pricing and cookie exemption are private glue decided by the wire tier of the same command (a 35 s steady flood, quiet sources, bursts spread over source ports, a second burst, the same source at the server's second listening socket, a cookie matrix of twelve variants incl. guessable keys and truncated server parts, all 256 one-octet server parts) against the documented constants (two buckets of 1000 tokens, 2 tokens/s, at least 200 per REFUSED). Key rotation (24-36 h) is not covered.", "3/C16"),
  "C17": ("CONF+CODEC", "model-based property testing: generated interface configurations through the real loader and builder, decoded by an RFC 4861/8106/8781/8910 decoder and compared with expected(config)", "exploration",
          "Every generated interface section (tri-state fields, boundary lifetimes in four spellings, prefixes of any length with host bits, RDNSS/DNSSL/PREF64/captive portal, top-level defaults) yields an RA that an independent RFC decoder reads back as exactly the configured values; reserved fields zero; unrepresentable values rejected or clamped, never wrapped.",
          "Trusted: the harness's RFC decoder and expectation model; yaml-rust's emitter (cases whose emitted text does not re-parse to the intended tree are skipped and counted). The mtu/lifetime tri-state resolution lives in the impure wrapper and is decided by the wire tier of the same command: nine combinations through the real erbium (router solicitation injected, advertisement captured, hop limit 255 and ICMPv6 checksum verified).", "3/C17"),
@@ -63,7 +63,7 @@ CHECKS = {
          "Trusted: harness decoder/encoder, scripted upstream. TCP-path cases are run one at a time (concurrency on the upstream TCP connection belongs to C07); a relayed REFUSED may be silenced by the UDP rate limiter (counted). Needs the private network namespace.", "3/C03"),
  "C07": ("WIRE-DNS", "fault enumeration + generated concurrent schedules on the wire: enumerated upstream loss patterns, generated delay/duplication/id-mismatch/truncation scripts, all listener families", "fault_enumeration",
          "Each query of every generated concurrent set gets exactly one response, its own, from the address it was sent to; SERVFAIL iff the upstream never answered; the loss patterns over the upstream transmissions are enumerated (quick: <= 2 losses and all lost; thorough: all 32).",
-         "The harness owns the external schedule (arrival order, upstream delays, losses) but not tokio's task interleaving inside the server. Bounded time = within 60 s, derived from the server's own back-off. Also driven: upstream TCP replies arriving in two segments while queries keep arriving, 256 queries outstanding on the one upstream TCP connection (16-bit id space). Behaviour that only shows after the server's own 120 s idle timers (a TCP-path query after more than two minutes of silence) is exercised by the thorough tier only; the quick tier cannot wait that long.", "3/C07"),
+         "The harness owns the external schedule (arrival order, upstream delays, losses) but not tokio's task interleaving inside the server. Bounded time = within 60 s, derived from the server's own back-off. Also driven: upstream TCP replies arriving in two segments while queries keep arriving, 256 queries outstanding on the one upstream TCP connection (16-bit id space), an upstream reply that comes 11.5 s late followed by more TCP-path queries. Behaviour that only shows after the server's own 120 s idle timers (a TCP-path query after more than two minutes of silence) is exercised by the thorough tier only; the quick tier cannot wait that long.", "3/C07"),
  "C15": ("WIRE-DNS", "model-based + metamorphic property testing on the wire: generated route tables with one scripted upstream per route, reference longest-suffix model, permutation and letter-case relations", "exploration",
          "For every generated route table (as written and permuted) and name: forge => NXDOMAIN and no upstream asked; forward+RD => own answer from exactly the longest-suffix route's upstream; forward without RD => REFUSED and nobody asked; no route => SERVFAIL; identical outcomes under permutation.",
          "Ambiguous tables (same suffix in two routes) are not generated. Needs the private network namespace.", "3/C15"),
